@@ -245,21 +245,23 @@ CHECKS["C15"] = {
              "with injected duplicate / last-1 / earlier / 0 / smaller keys; 30% of table cases resize one value so that the largest start offset is exactly "
              "255/256/257/65535/65536/65537 (thorough also 2^24-1/2^24). TestTableRoundTrip non-trivial = key set spans >= 2 roaring containers or has a run container; "
              "TestMergedIterator = >= 2 input tables sharing a key; TestStoreMultiFile = >= 2 files of the version sharing a key; "
-             "distinct = hash of the operation list (key, size, mode, bad flag, value head) [+ table count/order]. TestCorruptReaderInfo is informational (never non-trivial)."),
+             "distinct = hash of the operation list (key, size, mode, bad flag, value head) [+ table count/order]. TestCorruptReaderInfo is informational (never non-trivial). "
+             "TestStoreMultiFile (about 1/3 of its cases) / TestStoreLevels: histories of flushes, level-0 compactions (Family.Compact or periodic guard, CompactThreshold 0-3, MaxFileSize default/1/16..256/1MiB -> split outputs, trivial moves) and reopens on one family with the union merger; flush key ranges placed by band, outside existing level>=1 ranges, or below/above/inside/across the ends of one level>=1 file (compaction of far-apart level-0 files next to an untouched level-1 file -> level-1 files overlapping in range); every version: per-file scan, min/max of every file, all added (key, value) exactly once, Load and FindReaders+Get == values held by the version's files for stored and absent keys, lookups with >=2 candidate files repeated 24x (file order inside a level is map order). non-trivial (levels) = a stored key with >=2 candidate files, one above level 0."),
     "level_text": ("Generated-input exploration: thousands of generated tables per run are written through the production builder (Add, StreamWriter, mixed) and read back through the "
                    "production mmap reader (Get on every key, absent-key probes around every key and chunk boundary, full iteration, builder Count/MinKey/MaxKey/Size, StreamWriter Size/CRC32); "
                    "1-8 real tables are merged and compared as a key-ordered multiset; 1-8 flushes into one kv family are read through Snapshot.Load, FindReaders+Get, per-file readers, "
                    "FileMeta min/max and the compaction-input merged iterator, optionally after closing and reopening the store."),
     "level_note": ("Trusted: tmpfs scratch files, the lindb/roaring fork only as a labelling aid (not as oracle). Corrupt or foreign table files are outside the property: the fuzz target and "
-                   "TestCorruptReaderInfo only record what the reader does with them. Files at level >= 1 are reached only through compaction (C03, C01)."),
+                   "TestCorruptReaderInfo only record what the reader does with them. Files at level >= 1 are produced by the production level-0 compaction with the kvsim union merger; rollup outputs are not covered (C04). Detection of an order-dependent lookup defect is probabilistic per lookup (hence 24 repetitions); the unchanged tree is deterministic."),
     "assumptions": ["keys are written in ascending order per file apart from the injected ones; Prepare/Write/Commit used in the documented order",
                     "every flush carries at least one value byte (storeFlusher.Commit abandons a builder whose Size() is 0; no production flusher writes only empty values)",
                     "total value bytes per table < 4 GiB (uint32 positions in the footer)",
-                    "no compaction during a case (CompactThreshold = 1<<20, no job scheduler started)"],
+                    "level-0-only cases: no compaction (CompactThreshold 1<<20); levels cases: compaction only when the history asks for it, run synchronously; store options = kv.DefaultStoreOption (2 levels); values of levels cases are non-empty atom sets, each atom written once"],
     "tests": [
         {"name": "TestTableRoundTrip", "quick": 3000, "thorough": {"checks": 3000, "shards": 8}},
         {"name": "TestMergedIterator", "quick": 2000, "thorough": {"checks": 3000, "shards": 4}},
-        {"name": "TestStoreMultiFile", "quick": 1500, "thorough": {"checks": 2000, "shards": 4}},
+        {"name": "TestStoreMultiFile", "quick": 2200, "thorough": {"checks": 3000, "shards": 4}},
+        {"name": "TestStoreLevels", "quick": 800, "thorough": {"checks": 4000, "shards": 4}},
         {"name": "TestCorruptReaderInfo", "quick": 300, "thorough": {"checks": 3000, "shards": 1}},
     ],
     "fuzz": [{"name": "FuzzTableReader", "seconds": 120}],
